@@ -12,6 +12,7 @@ import (
 	"io"
 	"sort"
 	"sync"
+	"time"
 
 	"github.com/theparanoids/ysshra/agent/ssh/connection"
 	"github.com/theparanoids/ysshra/keyid"
@@ -455,6 +456,11 @@ func (s *Server) SignWithFlags(key ssh.PublicKey, data []byte, flags agent.Signa
 	// request to the underlying agent with the correct public key.
 	// public key to tell ssh-agent which key it should use.
 	if cert, err := keyutil.CastSSHPublicKeyToCertificate(key); err == nil {
+		// filter cannot tell when the underlying agent refused to give up an expired certificate that
+		// was also held in memory (remove ignores the agent's answer then): never sign with one.
+		if !certutil.ValidateSSHCertTime(cert, time.Now()) {
+			return nil, errAgentNotFoundKey
+		}
 		keyHash := hash(cert.Marshal())
 		if _, ok := s.certs[keyHash]; ok {
 			return s.agent.SignWithFlags(cert.Key, data, flags)
@@ -568,6 +574,11 @@ func (s *Server) Signers() ([]ssh.Signer, error) {
 		return nil, err
 	}
 	for _, signer := range uss {
+		// The underlying agent is listed afresh here: an expired certificate it refused to give up
+		// in filter must not come back as a signer.
+		if cert, err := keyutil.CastSSHPublicKeyToCertificate(signer.PublicKey()); err == nil && !certutil.ValidateSSHCertTime(cert, time.Now()) {
+			continue
+		}
 		if !s.noUpstreamSSHCACert {
 			signers = append(signers, upstreamSigner{signer.PublicKey(), s})
 			continue
